@@ -82,7 +82,6 @@ def run_world(scn, widx, verbose=False):
     os.makedirs(scratch, exist_ok=True)
     env = {
         "PATH": os.environ.get("PATH", "/usr/bin:/bin"),
-        "HOME": os.environ.get("HOME", "/root"),
         "PYTHONHASHSEED": str(w.get("hashseed", 0)),
         "PYTHONDONTWRITEBYTECODE": "1",
         "VERIF_REPO": REPO,
@@ -91,9 +90,18 @@ def run_world(scn, widx, verbose=False):
     e = w.get("env") or {}
     if e.get("LC_ALL"):
         env["LC_ALL"] = e["LC_ALL"]
+    # HOME / TMPDIR / XDG_CACHE_HOME never point at the real home or /tmp: a change under test that
+    # keeps state on disk writes into the check's own scratch area (private to the world, or shared by
+    # all worlds of this run), which is removed afterwards.
+    shared = os.path.join(SCRATCH_TOP, "shared")
+    env["HOME"] = scratch
+    env["TMPDIR"] = scratch
     for k, v in sorted((e.get("vars") or {}).items()):
-        if k in ("HOME", "TMPDIR") and v == "@scratch":
+        if v == "@scratch":
             v = scratch
+        elif v == "@shared":
+            v = os.path.join(shared, k.lower())
+            os.makedirs(v, exist_ok=True)
         env[k] = v
     cmd = [PY]
     if e.get("opt"):
